@@ -127,13 +127,28 @@ func (e *Exec) callVal(s *State, cc *ssa.CallCommon, args []Val, setRes func(*St
 		// call log of the function under verification (its own call sites only)
 		if nm := callLogName(cc); nm != "" {
 			s.calls = append(s.calls, nm)
-			s.callRes = append(s.callRes, callResult{})
+			var argT []types.Type
+			csig := cc.Signature()
+			if cc.IsInvoke() {
+				argT = append(argT, cc.Value.Type())
+			} else if csig.Recv() != nil {
+				argT = append(argT, csig.Recv().Type())
+			}
+			for i := 0; i < csig.Params().Len(); i++ {
+				argT = append(argT, csig.Params().At(i).Type())
+			}
+			if len(argT) != len(args) {
+				argT = nil
+			}
+			s.callRes = append(s.callRes, callResult{Args: append([]Val{}, args...), ArgT: argT})
 			idx := len(s.calls) - 1
 			inner := setRes
-			lrt := resultType(cc.Signature())
+			lrt := resultType(csig)
 			setRes = func(st *State, v Val) {
 				if idx < len(st.callRes) && st.calls[idx] == nm {
-					st.callRes[idx] = callResult{V: v, T: lrt}
+					cr := st.callRes[idx]
+					cr.V, cr.T = v, lrt
+					st.callRes[idx] = cr
 				}
 				inner(st, v)
 			}
